@@ -47,7 +47,10 @@ def label(tr):
         if ev["goterr"] != ev["wanterr"]:
             cls.append("error")
         ev["diffcls"] = "+".join(cls) if cls else "none"
-        ev["fkind"] = "time-range" if "time-range" in ix.FILTERS[ev["f"]] else "other"
+        fx = ix.FILTERS[ev["f"]]
+        # (a prop-filter is-not-defined directly inside the component filter, nothing else)
+        ev["fkind"] = "time-range" if "time-range" in fx else \
+            "prop-is-not-defined" if ev["f"] in ("noSum", "fC", "noLoc") else "other"
 
 
 def model_check(threshold, lossy, depth):
@@ -107,6 +110,11 @@ def run(prop, tier, seed, replay=None):
             [["put", "a", "m1"]] + [["query", "fA"]] * 2 + [["query", "hasLoc"]] * 2 +
             [["put", "b", "bad"]] + [["query", "fA"]] * 2 + [["delete", "b"], ["put", "b", "m2"]] +
             [["query", "fA"], ["query", "fB"], ["query", "hasLoc"]],
+            # two events of which one lacks the property, asked for "property not defined";
+            # values with escaped characters asked for by their text
+            [["put", "a", "sumMix"], ["put", "b", "esc"], ["put", "c", "jan"]] + [["query", "noSum"]] * 3 +
+            [["query", "sumEsc"]] * 3 + [["query", "locEsc"]] * 3 + [["put", "d", "sumMix"], ["delete", "a"]] +
+            [["query", "noSum"], ["query", "sumEsc"], ["query", "fA"]],
         ]
         for ops in DIRECTED:
             for level, store, th in (("store", "tree", 0), ("store", "tree", 1), ("store", "mem", 2),
